@@ -100,6 +100,9 @@ class IndexCorrespondence:
                         )
 
             # these will be equal sized
+            if common_labels.__class__ is np.ndarray and common_labels.dtype == DTYPE_BOOL:
+                # as above: a Boolean array of labels would be taken for a Boolean selection
+                common_labels = common_labels.tolist()
             iloc_src = src_index._loc_to_iloc(common_labels)
             iloc_dst = dst_index._loc_to_iloc(common_labels)
 
